@@ -8,6 +8,7 @@ package c09
 
 import (
 	"fmt"
+	"strings"
 	"maps"
 
 	"verif/mc/chain"
@@ -27,8 +28,10 @@ func (h *harness) failedCommitSweep(b *base) (cases int64) {
 				break
 			}
 			// a node that has been running: its running filter is initialised (the snapshot write is
-			// also what a periodic/graceful flush does; it is not the commit that fails)
-			if err := n.bc.WriteRunningEventFilter(); err != nil {
+			// also what a periodic/graceful flush does; it is not the commit that fails). On the "-nosnap" bases no
+			// snapshot is ever written: the node was started on an image without one and initialises its running
+			// filter lazily from the persisted windows + blocks, and so does the rebuild after the failed commit.
+			if err := b.initFilter(n.bc); err != nil {
 				r.Infra("failed-commit sweep: init on %s: %v", label, err)
 			}
 			c0 := fdb.Commits()
@@ -46,6 +49,25 @@ func (h *harness) failedCommitSweep(b *base) (cases int64) {
 			r.Outcome("op fails cleanly on injected commit error")
 			n.pre = maps.Clone(inner.Impl().(map[string][]byte))
 			h.checkState(n, []op{o}, label)
+			// the process dies instead of retrying: a new node on the image as the failed commit left it (= a crash
+			// right before commit k, after the op's earlier commits) answers the grid and can perform the op
+			{
+				cd := fastCopy(inner.Impl().(map[string][]byte))
+				m := &node{b: b, db: cd, bc: chain.NewNode(cd, b.newState), chain: append([]*chain.Entry{}, n.chain...)}
+				m.ctx = fmt.Sprintf(" [crash before commit #%d of %s, restarted]", k, opKind(o))
+				m.pre = maps.Clone(cd.Impl().(map[string][]byte))
+				h.checkState(m, []op{o, opRestartU}, label)
+				if err := m.apply(o); err != nil {
+					r.Violate("op-fails after a crash inside "+opKind(o)+hist.Backend(b.newState),
+						map[string]any{"base": label, "op": opNames[o], "crash_before_commit": k, "err": err.Error()})
+				} else {
+					m.pre = maps.Clone(cd.Impl().(map[string][]byte))
+					m.diag = nil
+					m.ctx = fmt.Sprintf(" [crash before commit #%d of %s, restarted, op redone]", k, opKind(o))
+					h.checkState(m, []op{o, opRestartU, o}, label)
+				}
+				cases++
+			}
 			if err := n.apply(o); err != nil {
 				r.Violate("retry-fails after failed commit of "+opKind(o)+hist.Backend(b.newState),
 					map[string]any{"base": label, "op": opNames[o], "failed_commit": k, "err": err.Error()})
@@ -109,7 +131,7 @@ func (h *harness) afterFailedCommit(b *base, o op, k int) *node {
 	inner := fastCopy(b.img)
 	fdb := faultdb.Wrap(inner)
 	n := &node{b: b, db: inner, bc: chain.NewNode(fdb, b.newState), chain: append([]*chain.Entry{}, b.chain...)}
-	if err := n.bc.WriteRunningEventFilter(); err != nil {
+	if err := b.initFilter(n.bc); err != nil {
 		return nil
 	}
 	fdb.FailAt(fdb.Commits()+k, nil)
@@ -127,4 +149,11 @@ func opKind(o op) string {
 		return "revert"
 	}
 	return "store"
+}
+
+func (b *base) initFilter(bc interface{ WriteRunningEventFilter() error }) error {
+	if strings.HasSuffix(b.name, "-nosnap") {
+		return nil
+	}
+	return bc.WriteRunningEventFilter()
 }
